@@ -873,3 +873,52 @@ verif_py_cal!(NamedCal);
 pub fn verif_py_get_calendar_by_name(name: &str) -> Result<Cal, ()> {
     get_calendar_by_name_py(name).map_err(|_| ())
 }
+
+// verification hooks: Python's pickle protocol on the calendar classes - cls(*obj.__getnewargs__()) followed by
+// __setstate__(obj.__getstate__())
+#[cfg(feature = "verif")]
+macro_rules! verif_py_pickle {
+    ($name: ident, |$args: ident| $ctor: expr) => {
+        impl $name {
+            pub fn verif_py_pickle(&self) -> Result<$name, String> {
+                let $args = self.__getnewargs__().map_err(|_| "__getnewargs__ failed".to_string())?;
+                let mut o: $name = $ctor.map_err(|_| "cls(*__getnewargs__()) failed".to_string())?;
+                Python::with_gil(|py| {
+                    let st = self.__getstate__(py).map_err(|_| "__getstate__ failed".to_string())?;
+                    o.__setstate__(st).map_err(|_| "__setstate__ failed".to_string())
+                })?;
+                Ok(o)
+            }
+        }
+    };
+}
+#[cfg(feature = "verif")]
+verif_py_pickle!(Cal, |a| Cal::new_py(a.0, a.1));
+#[cfg(feature = "verif")]
+verif_py_pickle!(UnionCal, |a| UnionCal::new_py(a.0, a.1));
+#[cfg(feature = "verif")]
+verif_py_pickle!(NamedCal, |a| NamedCal::new_py(a.0));
+#[cfg(feature = "verif")]
+verif_py_pickle!(Convention, |a| Convention::new_py(a.0));
+#[cfg(feature = "verif")]
+verif_py_pickle!(Modifier, |a| Modifier::new_py(a.0));
+
+// verification hooks: the Python-facing constructors of the calendar classes
+#[cfg(feature = "verif")]
+impl Cal {
+    pub fn verif_py_new(holidays: Vec<NaiveDateTime>, week_mask: Vec<u8>) -> Result<Self, ()> {
+        Cal::new_py(holidays, week_mask).map_err(|_| ())
+    }
+}
+#[cfg(feature = "verif")]
+impl UnionCal {
+    pub fn verif_py_new(calendars: Vec<Cal>, settlement_calendars: Option<Vec<Cal>>) -> Result<Self, ()> {
+        UnionCal::new_py(calendars, settlement_calendars).map_err(|_| ())
+    }
+}
+#[cfg(feature = "verif")]
+impl NamedCal {
+    pub fn verif_py_new(name: String) -> Result<Self, ()> {
+        NamedCal::new_py(name).map_err(|_| ())
+    }
+}
